@@ -119,7 +119,7 @@ class C05(Prop):
     REQUIRED_CLASSES = ["long_string>=1000", "container>=2", "escape_needed", "non_integer_number", "non_finite_number", "int_range_integer", "control_char", "non_bmp", "depth>=17"]
 
     def budget(self, tier):
-        return {"workers": 12, "examples": 2000 if tier == "quick" else 10000}
+        return {"workers": 12, "examples": 3000 if tier == "quick" else 20000}
 
     def strategy(self, tier):
         numbers = st.one_of(gens.finite_doubles(), gens.finite_doubles(), gens.top_doubles(),
